@@ -12,7 +12,7 @@ type Unit struct {
 	PES    *PESHeader `json:"pes,omitempty"`
 	Len    int        `json:"len,omitempty"`
 	Biased bool       `json:"biased,omitempty"`  // payload made of 00 00 01 Ex patterns at 184-byte strides
-	BiasXY bool       `json:"bias_xy,omitempty"` // with Biased: the pattern is 02 04 01 Ex (looks like a start code only to a sloppy test)
+	BiasXY bool       `json:"bias_xy,omitempty"` // with Biased: the pattern is 02 04 01 / 04 00 01 / 00 04 01 Ex (looks like a start code only to a sloppy test)
 	// PSI
 	Pointer  int       `json:"pointer,omitempty"`
 	Sections []Section `json:"sections,omitempty"`
@@ -79,12 +79,13 @@ func (u *Unit) UnitPayload() []byte {
 			case 0:
 				b[i] = 0
 				if u.BiasXY {
-					b[i] = 0x02
+					// 02 04 01, 04 00 01 or 00 04 01 (by tag): one wrong byte in either position
+					b[i] = []byte{0x02, 0x04, 0x00}[u.Tag%3]
 				}
 			case 1:
 				b[i] = 0
 				if u.BiasXY {
-					b[i] = 0x04
+					b[i] = []byte{0x04, 0x00, 0x04}[u.Tag%3]
 				}
 			case 2:
 				b[i] = 1
